@@ -197,6 +197,12 @@ def analyse(s, finals):
     for k, (runs, dones) in gathering_runs.items():
         if dones > runs:
             bad.append(("gathering-done-twice", f"{k}: {dones} gathering-done signals for {runs} gathering runs"))
+    for e in s.events():
+        mm = re.match(r"t=\d+ (\w+) getter-mismatch (\d+) (\d+) getter=(\w+) announced=(\w+) after=(\S+)", e)
+        if mm:
+            bad.append(("getter-mismatch", f"({mm.group(1)}, {mm.group(2)}, {mm.group(3)}): when `{mm.group(6)}` returned the getter said "
+                                           f"{mm.group(4)} but the last announced state was {mm.group(5)}"))
+            break
     for key, st in finals.items():
         if key in last and last[key] != st:
             bad.append(("getter-mismatch", f"{key}: getter says {st}, last announced {last[key]}"))
